@@ -1328,6 +1328,8 @@ func c17_runC17(e *Env) {
 	c17Sanitize(e)
 	// sessions: sequences of MarshalCode/UnmarshalCode calls with retained results (c17sess.go)
 	c17Sessions(e)
+	// the modelled compiler fragments: real tree = embedded fragment compiler output (c17frag.go)
+	c17Fragments(e)
 }
 
 // c17Sanitize compares the model's `sanitize`/`validStr` with json.Marshal∘Unmarshal.
